@@ -590,6 +590,9 @@ int main(int argc, char** argv) {
               struct timespec ts[2]; char buf[8192]; ssize_t k;
               ts[0] = ss.st_atim; ts[1] = ss.st_mtim;
               if (futimens(d, ts)) r = -errno;
+              /* like `cp -p` (and fs.c:1336): hand the owner over too, errors ignored; before fchmod, which restores
+                 the set-id bits a chown clears */
+              if (r == 0) { int ig = fchown(d, ss.st_uid, ss.st_gid); (void) ig; }
               if (r == 0 && fchmod(d, ss.st_mode)) r = -errno;
               /* oracle for the clone flags: FICLONE = try to reflink, else plain copy; FICLONE_FORCE = reflink or fail.
                  Either way a successful copy leaves dst an exact copy of src (the truncate above already happened) */
